@@ -251,7 +251,7 @@ func runAdvPause(c *drv.Ctx) error {
 func runConcFam(c *drv.Ctx) error {
 	w := cw.New(c.Out, famHeader, "fcase", []cw.Check{{Name: "MISMATCH", Fn: "fcase_ok"}, {Name: "MON20F", Fn: "fcase_mon"}})
 	w.ShardSize = 100
-	w.Stats.Rule = "one real requestor (empty store) and one real responder over the mocknet, two disjoint generated DAGs; three families, each with a victim request that shares nothing excusable with the others: (ignore) an earlier request with a dedup key and a do-not-send-cids list naming blocks of the victim's DAG has finished, then the victim runs in the default scope; (bucket) two requests share a dedup key, the first finishes on the responder while the victim has registered the key but is held before its first load, a default-scope request over an overlapping DAG is served up to its last link and has stored nothing, then the victim runs; (cancel) another request over the other DAG is cancelled by the caller while the block-carrying rest of its response is queued in its loader, then the victim, whose responder lacks a block, runs. " +
+	w.Stats.Rule = "one real requestor (empty store) and one real responder over the mocknet, two disjoint generated DAGs; three families, each with a victim request that shares nothing excusable with the others: (ignore) an earlier request with a dedup key and a do-not-send-cids list naming blocks of the victim's DAG has finished, then the victim runs in the default scope; (bucket) two requests share a dedup key, the first finishes on the responder while the victim has registered the key but is held before its first load, a default-scope request over an overlapping DAG is served up to its last link and has stored nothing, then the victim runs; (cancel) another request over the other DAG is cancelled by the caller while the block-carrying rest of its response is queued in its loader, then the victim, whose responder lacks a block, runs; (batch) two requests over the two DAGs answered by a scripted peer (real network layer and wire codec) every block-carrying chunk of one response travelling in one message with a metadata-less partial response of the other, final statuses apart: both are victims. " +
 		"monitor: the victim's delivered nodes and errors equal those of the same request alone, every block of its reference store is in the store, every stored block hashes to its key; correspondence: the model of the victim alone. distinct = distinct terms"
 	run := func(path, kind string) error {
 		var fc famCase
@@ -268,7 +268,7 @@ func runConcFam(c *drv.Ctx) error {
 	}
 	n := c.Count(150, 3000)
 	for i := 0; i < n; i++ {
-		if err := runFamCase(w, famCase{Seed: c.R.U64(), Family: []string{"ignore", "bucket", "cancel"}[i%3]}, "random"); err != nil {
+		if err := runFamCase(w, famCase{Seed: c.R.U64(), Family: []string{"ignore", "bucket", "cancel", "batch"}[i%4]}, "random"); err != nil {
 			return err
 		}
 	}
